@@ -99,6 +99,8 @@ fn main() {
         "refproc" => c09::cmd_refproc(),
         #[cfg(feature = "e1")]
         "e1-ref" => e1::cmd_ref(&args),
+        #[cfg(feature = "e1")]
+        "plan-info" => e1::cmd_plan_info(&args),
         "e3" => e3::cmd_e3(&args),
         "c20" => c20::cmd_c20(&args),
         "replay" => cmd_replay(&args),
